@@ -89,6 +89,36 @@ def dc_proj(obj) -> list:
     return [[k, out[k]] for k in sorted(out)]
 
 
+def synthetic_results(results: list, rng: random.Random, n_bin_bounds: int) -> list:
+    """Representable records that tiny real runs never produce: fractional and unbounded (+inf) objective bounds,
+    and a caller-chosen family of bin bounds of the given size.  Bounds are a function of (instance, key), as the
+    statistics require; fractions are never integer-valued (moptipy reads "3.0" back as the int 3)."""
+    from moptipyapps.binpacking2d import packing_result as pr
+    mods: dict = {}
+    keys = sorted(results[0].bin_bounds.keys())
+    keep = sorted(rng.sample(keys, min(n_bin_bounds, len(keys))))
+    out = []
+    for r in results:
+        ob = dict(r.objective_bounds)
+        for k in sorted(ob):
+            m = mods.setdefault((r.end_result.instance, k), rng.random())
+            if k.endswith(".upperBound"):
+                if m < 0.4:
+                    ob[k] = float("inf")
+                elif m < 0.7:
+                    ob[k] = ob[k] + 0.5
+            elif m < 0.4:
+                ob[k] = ob[k] - 0.25
+        ov = dict(r.objectives)
+        for k in sorted(ov):     # fractional values of objectives that were evaluated but not optimised
+            if k != r.end_result.objective and ob[k + ".upperBound"] > r.objective_bounds[k + ".upperBound"] \
+                    and rng.random() < 0.5:
+                ov[k] = ov[k] + 0.5
+        out.append(pr.PackingResult(r.end_result, r.n_items, r.n_different_items, r.bin_width, r.bin_height,
+                                    ov, ob, {k: r.bin_bounds[k] for k in keep}))
+    return out
+
+
 def run(prop: str, tier: str, seed: int) -> int:
     rep = Report(prop, tier, seed)
     rng = random.Random(seed * 1000003 + 19)
@@ -195,35 +225,36 @@ def run(prop: str, tier: str, seed: int) -> int:
             pr.from_logs(str(base), results.append)
             results.sort(key=lambda r: (r.end_result.algorithm, r.end_result.instance, r.end_result.objective,
                                         r.end_result.encoding, r.end_result.rand_seed))
-            rec = {"id": f"csv-results-{t}", "kind": "csv", "what": "packing-results",
-                   "orig": [dc_proj(r) for r in results], "ok": 1, "back": []}
-            try:
-                f = pr.to_csv(results, str(base / "results.csv"))
-                back = list(pr.from_csv(str(f)))
-                back.sort(key=lambda r: (r.end_result.algorithm, r.end_result.instance, r.end_result.objective,
-                                         r.end_result.encoding, r.end_result.rand_seed))
-                rec["back"] = [dc_proj(r) for r in back]
-            except (ValueError, TypeError, KeyError) as ex_:
-                rec["ok"] = 0
-                rec["error"] = f"{type(ex_).__name__}: {str(ex_)[:160]}"
-            cases.append(rec)
-            stats: list = []
-            ps.from_packing_results(results, stats.append)
-            key = lambda s: (s.end_statistics.algorithm or "", s.end_statistics.instance or "",
-                             s.end_statistics.objective or "", s.end_statistics.encoding or "")
-            stats.sort(key=key)
-            rec = {"id": f"csv-statistics-{t}", "kind": "csv", "what": "packing-statistics",
-                   "orig": [dc_proj(r) for r in stats], "ok": 1, "back": []}
-            try:
-                f = ps.to_csv(stats, str(base / "stats.csv"))
-                back = list(ps.from_csv(str(f)))
-                back.sort(key=key)
-                rec["back"] = [dc_proj(r) for r in back]
-            except (ValueError, TypeError, KeyError) as ex_:
-                rec["ok"] = 0
-                rec["error"] = f"{type(ex_).__name__}: {str(ex_)[:160]}"
-            cases.append(rec)
-            rep.family("csv-tables", 2, 2)
+            for variant, table in (("", results), ("-synthetic", synthetic_results(results, rng, 1 + t % 3))):
+                rec = {"id": f"csv-results-{t}{variant}", "kind": "csv", "what": "packing-results",
+                       "orig": [dc_proj(r) for r in table], "ok": 1, "back": []}
+                try:
+                    f = pr.to_csv(table, str(base / f"results{variant}.csv"))
+                    back = list(pr.from_csv(str(f)))
+                    back.sort(key=lambda r: (r.end_result.algorithm, r.end_result.instance, r.end_result.objective,
+                                             r.end_result.encoding, r.end_result.rand_seed))
+                    rec["back"] = [dc_proj(r) for r in back]
+                except (ValueError, TypeError, KeyError) as ex_:
+                    rec["ok"] = 0
+                    rec["error"] = f"{type(ex_).__name__}: {str(ex_)[:160]}"
+                cases.append(rec)
+                stats: list = []
+                ps.from_packing_results(table, stats.append)
+                key = lambda s: (s.end_statistics.algorithm or "", s.end_statistics.instance or "",
+                                 s.end_statistics.objective or "", s.end_statistics.encoding or "")
+                stats.sort(key=key)
+                rec = {"id": f"csv-statistics-{t}{variant}", "kind": "csv", "what": "packing-statistics",
+                       "orig": [dc_proj(r) for r in stats], "ok": 1, "back": []}
+                try:
+                    f = ps.to_csv(stats, str(base / f"stats{variant}.csv"))
+                    back = list(ps.from_csv(str(f)))
+                    back.sort(key=key)
+                    rec["back"] = [dc_proj(r) for r in back]
+                except (ValueError, TypeError, KeyError) as ex_:
+                    rec["ok"] = 0
+                    rec["error"] = f"{type(ex_).__name__}: {str(ex_)[:160]}"
+                cases.append(rec)
+            rep.family("csv-tables", 4, 4)
     finally:
         shutil.rmtree(work, ignore_errors=True)
     vs = core.validate("text/Trace_Text", cases, shards=14)
